@@ -25,6 +25,23 @@ method / extension method whose receiver parameter is missing or lazy, with
 and without exclusive=True; the host catches InvalidMethodException): the
 attempt must leave resolution exactly as it would be without it.
 
+(3) the CONSTRUCTION PATH of an overload's kind: each kind (function / method /
+extension method) reached by decorator, by the tri-state overrides
+function= / method= (None / True / False) on a plain function, and by
+overrides that narrow or widen a decorated one, given either to
+context.register_function(f, ...) or to specs.get_function_definition(f, ...);
+the model only sees the kind that results (models.resolve.kind_after).
+(4) the TYPE ALPHABET: one- and two-parameter overloads declared with every
+smart type of yaql/language/yaqltypes.py a parameter can have (YaqlExpression
+unrestricted / restricted to each expression node class, Lambda, the constant
+types, String ... DateTime, PythonType, AnyOf / Chain / NotOfType, nullable or
+not) called - as text, the node kind matters - with arguments of every
+expression node kind (call, binary / unary operator, indexer, list / map
+literal, $variable, literals of each kind) and every value class; then pairs of
+such overloads in one layer and in nearer / farther layers.  Acceptance is
+models.resolve.type_accepts (from extending_yaql.rst); what the documentation
+leaves open is counted outside the domain.
+
 Overloads are enumerated in registration order (vf.resolution.OrderedContext):
 the address order of the real overload set is C06's subject.
 """
@@ -38,7 +55,7 @@ from models import resolve as M
 ID = 'C05'
 TITLE = 'overload resolution'
 RULE = ('all (family of overloads over context layers, call, path) within the bound; a case is distinct by '
-        '(layers - or the history of registration attempts that built them -, call, path in {direct, text}) and non-trivial when at least one overload of the right kind is '
+        '(layers - or the history of registration attempts / the construction paths of the kinds that built them -, call, path in {direct, text}; for the type alphabet: declared types, layering, argument texts) and non-trivial when at least one overload of the right kind is '
         'visible (expected outcome is not "unknown function/method"); judged = outcome (tag or error class, '
         'function/method flavour) + log of evaluated arguments + what the payload received')
 ASSUMPTIONS = ['defaults of the enumerated parameters are type-correct for their own parameter (null for lazy ones)',
@@ -49,7 +66,14 @@ ASSUMPTIONS = ['defaults of the enumerated parameters are type-correct for their
                'the host): in the singles/pairs/... families such a list is simply not enumerated as a method; in the registration '
                'histories the rejected attempt IS made and the model says it changes nothing (models.resolve.registered)',
                'accepted registrations of one layer share one exclusive flag (whether a later non-exclusive registration keeps an earlier '
-               'exclusive one is not written down); the flag of a rejected attempt is free']
+               'exclusive one is not written down); the flag of a rejected attempt is free',
+               'function= / method= overrides that leave an overload neither function nor method are outside the domain (the documentation '
+               'knows three function types)',
+               'type alphabet: an acceptance the documentation does not settle is outside the domain (`null` literal against a constant type, a '
+               'keyword against StringConstant or YaqlExpression(Constant), anything but a call against Lambda(method=True)); so is a family '
+               'where it matters whether laziness is compared before or after lazy / constant types have looked at the AST (the rules list '
+               'laziness first, the implementation filters first); among smart types only single-class types below PythonType(object) are '
+               'ordered by specificity, two other matches in one layer are ambiguous (rule 7)']
 BOUNDS = {
     'quick': 'singles: parameter lists of <= 2 positional from 7 shapes [Any, A, B, Lazy, A?, A=default, C] x 11 extensions '
              '[*r, **kw, kW optional/required, kW with **kw, hidden Engine at 0 / Context at 1 / Engine at 2, combinations] x 3 kinds x 249 calls, both paths; '
@@ -65,11 +89,21 @@ BOUNDS = {
              '{(x: T1, y: T2), (y: T2, x: T1)}, {(x: A, *, kW: T1, kV: T2) in both orders} with T1, T2 over {Any, A, B, C} - x calls with both keywords in both written orders, '
              'values {a, b, c} squared (behind a positional argument / a receiver for the third group), both paths; '
              'registration histories: a rejected attempt (3 invalid lists [no parameter, lazy receiver, keyword-only only] x {method, ext} x exclusive {F, T}) alone in the nearest layer, '
-             'before / after an accepted registration (layer flag {F, T}) in it, or alone in a layer between two accepted ones; accepted overloads from 4 lists squared x 133 calls',
+             'before / after an accepted registration (layer flag {F, T}) in it, or alone in a layer between two accepted ones; accepted overloads from 4 lists squared x 133 calls; '
+             'kind construction: 54 paths = {context.register_function, specs.get_function_definition} x {plain, @method, @extension_method} x function= {None, T, F} x method= {None, T, F} '
+             '(the 10 that leave neither call syntax are outside the domain): alone on 6 lists x 64 calls without keywords / empty slots, both paths; next to a second overload '
+             'declared by decorator (3 kinds) on 2 lists squared x {same layer, nearer, farther, nearer exclusive, farther exclusive} x the 10 calls of arity <= 1; '
+             'type alphabet: 53 declared types (YaqlExpression unrestricted / restricted to each of 9 node classes / to 2 unions, Lambda(method=F|T), Keyword, and nullable x '
+             '{Constant, StringConstant, NumericConstant, BooleanConstant, String, Integer, Number, DateTime, Sequence, Iterable, Iterator, PythonType(object|str|A), AnyOf(String, Integer), '
+             'NotOfType(String), NotOfType(Integer), Chain(Iterable, Sequence), Chain(Number, Integer)}) x 43 arguments (calls and $variables of 10 value classes, `$`, 6 binary, 3 unary, '
+             '2 indexer, 2 list, 2 map expressions, 7 literals), text path; two parameters: 10 types squared x 14 arguments squared; '
+             'pairs: 19 types squared (12 YaqlExpression, Lambda, Constant, NumericConstant, Keyword, anything, Integer, String) x {same, child, exclusive child} x 43 arguments',
     'thorough': 'singles: 10 shapes x 17 extensions (also typed/lazy *r, typed **kw, lazy kW) x 3 kinds x 349 calls '
                 '(constants 1, \'k\', kw); pairs: 157 lists squared x 4 layerings x 173 calls; kind mixing and @no_kwargs on 16 lists; '
                 'triples: 22 lists cubed x 5 layerings; composite contexts on 16 lists; two keywords: T1, T2 over {Any, A, B, C, A?, AC, Lazy}, values {a, b, c, n, null, 1}; '
-                'registration histories: 7 invalid lists (also hidden-then-lazy, **kw only, lazy then eager, lazy *r), accepted overloads from 7 lists squared',
+                'registration histories: 7 invalid lists (also hidden-then-lazy, **kw only, lazy then eager, lazy *r), accepted overloads from 7 lists squared; '
+                'kind construction: alone on 16 lists x 100 calls; the second overload also built by every path, 3 lists squared, 100 calls of arity <= 2; '
+                'type alphabet: 55 types (2 more YaqlExpression unions); two parameters: 27 types squared x 43 arguments squared; pairs: 27 types squared (also Lambda(method=True), StringConstant, BooleanConstant?, PythonType(object), String?, PythonType(A)) x 4 layerings (also grandchild)',
 }
 
 SKIP = M.SKIP
@@ -762,6 +796,298 @@ def job_rejected(tier, part, of):
     return res
 
 
+# ---------------------------------------------------------------------------
+# construction path of an overload's kind
+# ---------------------------------------------------------------------------
+DECORATED = {'function': None, 'method': 'method', 'ext': 'ext'}
+
+
+def construction_paths():
+    """(how, decorated, function=, method=): a plain / @method / @extension_method python function x the
+    tri-state overrides x given to context.register_function or to specs.get_function_definition."""
+    return [(how, decorated, function, method) for how in ('register', 'define') for decorated in (None, 'method', 'ext')
+            for function, method in itertools.product((None, True, False), repeat=2)]
+
+
+def decorator_path(kind):
+    """The path every other job takes: the decorator alone."""
+    return ('define', DECORATED[kind], None, None)
+
+
+def path_class(via):
+    how, decorated, function, method = via
+    declared = {None: (True, False), 'method': (False, True), 'ext': (True, True)}[decorated]
+    off = any(o is False and d for o, d in zip((function, method), declared))
+    on = any(o is True and not d for o, d in zip((function, method), declared))
+    what = ('switch one call syntax on and the other off' if on and off else 'switch a call syntax off' if off else
+            'switch a call syntax on' if on else 'restate the declared kind')
+    return ('call-kind filter: kind of an overload given through %s with function=/method= overrides that %s'
+            % ({'register': 'context.register_function', 'define': 'specs.get_function_definition'}[how], what))
+
+
+def kind_calls(tier, arity=3):
+    """The small call set without keywords and empty slots: function syntax and method syntax,
+    at most `arity` arguments (the receiver counts)."""
+    return [c for c in call_set(tier, 'small') if not c[2] and SKIP not in c[1] and len(c[1]) + (c[0] is not None) <= arity]
+
+
+def construct_plists(tier):
+    x, y = P('x', 'pos', 'Any'), P('y', 'pos', 'A', True)
+    return [(x,), (P('x', 'pos', 'A'),)] + ([(P('x', 'pos', 'B'), y)] if tier == 'thorough' else [])
+
+
+CONSTRUCT_ARRANGEMENTS = {      # (o1 = the overload under test, o2) -> layers of (overload, path)
+    'same': lambda a, b: ((False, (a, b)),),
+    'near': lambda a, b: ((False, (a,)), (False, (b,))),
+    'far': lambda a, b: ((False, (b,)), (False, (a,))),
+    'near-exclusive': lambda a, b: ((True, (a,)), (False, (b,))),
+    'far-exclusive': lambda a, b: ((True, (b,)), (False, (a,))),
+}
+
+
+def strip_paths(built):
+    return tuple((exclusive, tuple(o for o, via in overloads)) for exclusive, overloads in built)
+
+
+def constructed(res, fid, built, key):
+    """The calling context, or None (reported) when a registration the model accepts is rejected."""
+    try:
+        return R.build_constructed(built, R.CLASSES5, base())
+    except R.exceptions.InvalidMethodException as e:
+        res.case((fid, 'registration'))
+        res.fail('construct: %s: registration rejected' % key, {'composite': fid, 'built': built, 'layers': strip_paths(built),
+                                                               'call': (None, (), ()), 'path': 'direct'},
+                 'InvalidMethodException %s' % e)
+
+
+def job_construct(tier, part, of):
+    """Every target kind reached by every construction path: alone, and next to / in front of / behind a second
+    overload (a wrongly visible nearer overload shadows the right farther one)."""
+    res = Result()
+    calls = list(enumerate(kind_calls(tier)))
+    short = list(enumerate(kind_calls(tier, max(len(pl) for pl in construct_plists(tier)))))
+    paths = construction_paths()
+    n = 0
+    for vi, via in enumerate(paths):
+        kind = M.kind_after(*via[1:])
+        if kind is None:
+            if part == 0:
+                res.out_of_domain += 1
+                res.outcomes['construct: neither call syntax left (no such function type)'] += 1
+            continue
+        for pi, pl in enumerate(kinds_plists(tier)):
+            n += 1
+            if n % of != part or (kind != 'function' and not M.valid_method(pl)):
+                continue
+            built = ((False, ((overload(0, pl, kind), via),)),)
+            ctx = constructed(res, ('construct', 'one', vi, pi), built, path_class(via))
+            if ctx is not None:
+                run_on(res, ('construct', 'one', vi, pi), ctx, strip_paths(built), calls, text='always',
+                       extra={'built': built}, key=path_class(via))
+        pls = construct_plists(tier)
+        seconds = [(k2, decorator_path(k2)) for k2 in ('function', 'method', 'ext')]
+        if tier == 'thorough':
+            seconds = [(M.kind_after(*v[1:]), v) for v in paths if M.kind_after(*v[1:])]
+        for name in sorted(CONSTRUCT_ARRANGEMENTS):
+            for (ia, pa), (ib, pb), (si, (k2, via2)) in itertools.product(enumerate(pls), enumerate(pls), enumerate(seconds)):
+                n += 1
+                if n % of != part:
+                    continue
+                built = CONSTRUCT_ARRANGEMENTS[name]((overload(0, pa, kind), via), (overload(1, pb, k2), via2))
+                ctx = constructed(res, ('construct', name, vi, ia, ib, si), built, path_class(via))
+                if ctx is not None:
+                    run_on(res, ('construct', name, vi, ia, ib, si), ctx, strip_paths(built), short, text=False,
+                           extra={'built': built}, key=path_class(via))
+    return res
+
+
+# ---------------------------------------------------------------------------
+# the smart-type alphabet: the type filter on every declared type x every way to write an argument
+# ---------------------------------------------------------------------------
+NODE_CLASSES = ('Function', 'BinaryOperator', 'UnaryOperator', 'IndexExpression', 'ListExpression', 'MapExpression',
+                'GetContextValue', 'Constant', 'KeywordConstant')
+ANYTHING = ('Python', 'object', True)
+
+
+def expression_types(tier):
+    out = [('Expression', ())] + [('Expression', (c,)) for c in NODE_CLASSES]
+    out += [('Expression', ('GetContextValue', 'ListExpression')), ('Expression', ('Function', 'BinaryOperator'))]
+    if tier == 'thorough':
+        out += [('Expression', ('Constant', 'KeywordConstant')), ('Expression', ('UnaryOperator', 'IndexExpression', 'MapExpression'))]
+    return out
+
+
+def type_alphabet(tier):
+    """Every smart type of yaql/language/yaqltypes.py a parameter can be declared with (the hidden ones are not
+    arguments; MappingRule is the @no_kwargs dimension of C06)."""
+    out = expression_types(tier) + [('Lambda', False), ('Lambda', True), ('Keyword',)]
+    for nullable in (False, True):
+        out += [(name, nullable) for name in ('Constant', 'StringConstant', 'NumericConstant', 'BooleanConstant', 'String',
+                                              'Integer', 'Number', 'DateTime', 'Sequence', 'Iterable', 'Iterator')]
+        out += [('Python', cls, nullable) for cls in ('object', 'str', 'A')]
+        out += [('AnyOf', (('String', False), ('Integer', False)), nullable), ('NotOfType', ('String', False), nullable),
+                ('NotOfType', ('Integer', False), nullable), ('Chain', (('Iterable', False), ('Sequence', False)), nullable),
+                ('Chain', (('Number', False), ('Integer', False)), nullable)]
+    return out
+
+
+def pair_types(tier):
+    """Types for 2-overload families and 2-parameter overloads: the lazy ones, constant types, and the eager
+    types whose specificity the lattice defines (a single class below 'anything')."""
+    out = expression_types(tier) + [('Lambda', False), ('Constant', False), ('NumericConstant', False), ('Keyword',),
+                                    ANYTHING, ('Integer', False), ('String', False)]
+    if tier == 'thorough':
+        out += [('Lambda', True), ('StringConstant', False), ('BooleanConstant', True), ('Python', 'object', False),
+                ('String', True), ('Python', 'A', False)]
+    return out
+
+
+def arguments(tier):
+    """(text with {k} = probe key, node, value class, probe): every expression node kind, with values of every class
+    where the node kind allows it."""
+    cls = R.VALUE_CLASS
+    out = [('p%s({k})' % v, 'call', cls[v], True) for v in sorted(cls)]
+    out += [('$' + v, 'var', cls[v], False) for v in sorted(cls)] + [('$', 'var', 'null', False)]
+    out += [('pi({k}) + 1', 'binary', 'int', True), ("ps({k}) + 'x'", 'binary', 'str', True), ('pi({k}) > 0', 'binary', 'bool', True),
+            ('pf({k}) * 2', 'binary', 'float', True), ('ps({k}).len()', 'binary', 'int', True),
+            ('pd({k}).get(zz)', 'binary', 'null', True),
+            ('-pi({k})', 'unary', 'int', True), ('-pf({k})', 'unary', 'float', True), ('not pt({k})', 'unary', 'bool', True),
+            ('pl({k})[0]', 'index', 'int', True), ('pd({k})[a]', 'index', 'str', True),
+            ('[pi({k}), 2]', 'list', 'list', True), ('[]', 'list', 'list', False),
+            ('{{a => pi({k})}}', 'map', 'dict', True), ('{{}}', 'map', 'dict', False),
+            ("'k'", 'string', 'str', False), ('1', 'integer', 'int', False), ('1.5', 'float', 'float', False),
+            ('true', 'boolean', 'bool', False), ('false', 'boolean', 'bool', False), ('null', 'null', 'null', False),
+            ('kw', 'keyword', 'str', False)]
+    return out
+
+
+def two_types(tier):
+    """Types for the 2-parameter overloads."""
+    if tier == 'thorough':
+        return pair_types(tier)
+    return [('Expression', ()), ('Expression', ('Function',)), ('Expression', ('BinaryOperator',)),
+            ('Expression', ('GetContextValue', 'ListExpression')), ('Lambda', False), ('NumericConstant', False), ('Keyword',),
+            ANYTHING, ('Integer', False), ('String', False)]
+
+
+def pair_arguments(tier):
+    """For the 2-parameter overloads: one argument per node kind (two for calls and variables); thorough: all."""
+    keep = ('pi({k})', 'ps({k})', '$s', '$n', 'pi({k}) + 1', '-pi({k})', 'pl({k})[0]', '[pi({k}), 2]', '{{a => pi({k})}}',
+            "'k'", '1', 'true', 'null', 'kw')
+    return [a for a in arguments(tier) if tier == 'thorough' or a[0] in keep]
+
+
+def typed_base():
+    if 'typed' not in _state:
+        _state['typed'] = R.base_context('c05types', R.TYPE_VALUES)
+    return _state['typed']
+
+
+def type_name(t):
+    if t[0] == 'Expression':
+        return 'YaqlExpression(%s)' % ('restricted to node classes' if t[1] else 'unrestricted')
+    if t[0] == 'Lambda':
+        return 'Lambda(method=%s)' % t[1]
+    return 'PythonType' if t[0] == 'Python' else t[0]
+
+
+def typed_expected(layers, args):
+    """None (outside the domain) when an acceptance is not documented or when it matters whether laziness is compared
+    before or after the lazy / constant types have looked at the AST (extending_yaql.rst lists R4 before R5; the
+    property statement only says constants are checked before evaluation)."""
+    margs = tuple(a[1:] for a in args)
+    exp = M.resolve_typed(layers, margs)
+    if exp is None or exp != M.resolve_typed(layers, margs, M.LAZINESS_FIRST):
+        return None
+    return exp
+
+
+def run_typed(res, fid, layers, arg_tuples, key):
+    ctx = R.build_typed(layers, typed_base())
+    for ai, args in arg_tuples:
+        res.case((fid, ai))
+        exp = typed_expected(layers, args)
+        obs = R.typed_call(ctx, [a[0].format(k=i) for i, a in enumerate(args)])
+        res.evaluations += 1
+        if exp is None:
+            res.out_of_domain += 1
+            res.outcomes['%s undocumented' % fid[0]] += 1
+            continue
+        res.transitions += 1
+        res.nontrivial += 1
+        res.outcomes['%s %s' % (fid[0], outcome_class(exp[0]))] += 1
+        if obs != exp:
+            what = 'outcome' if obs[0] != exp[0] else 'evaluated-arguments'
+            res.fail('%s: %s' % (key, what),
+                     {'typed': fid, 'layers': layers, 'args': args,
+                      'text': 'foo(%s)' % ', '.join(a[0].format(k=i) for i, a in enumerate(args))},
+                     'observed %r expected %r' % (obs, exp))
+
+
+TYPED_LAYERINGS = {
+    'same': lambda a, b: ((False, (a, b)),),
+    'child': lambda a, b: ((False, (a,)), (False, (b,))),
+    'exclusive': lambda a, b: ((True, (a,)), (False, (b,))),
+    'grandchild': lambda a, b: ((False, (a,)), (False, ()), (False, (b,))),
+}
+
+
+def job_typecheck(tier):
+    """Harness self-check: every argument text has the node class and the value class the model is told."""
+    res = Result()
+    for text, node, value, probe in arguments(tier):
+        text = text.format(k=0)
+        expr = R.yq.parse('foo(%s)' % text).expression.args[0]
+        del R.LOG[:]
+        v = expr(R.utils.NO_VALUE, typed_base().create_child_context(), R.yq.engine())
+        seen = (type(expr).__name__, R.value_class(v), bool(R.LOG))
+        if seen != (M.NODE_CLASS[node], value, probe):
+            res.fail('harness: an argument text is not what the model is told', {'typed': ('selfcheck',), 'text': text},
+                     '%r: %r' % (text, seen))
+        res.extra['arguments_checked'] = res.extra.get('arguments_checked', 0) + 1
+    return res
+
+
+def job_typed_single(tier):
+    """One overload foo(x: T), every T x every argument."""
+    res = Result()
+    args = [(ai, (a,)) for ai, a in enumerate(arguments(tier))]
+    for ti, t in enumerate(type_alphabet(tier)):
+        run_typed(res, ('typed-single', ti), ((False, (('t1', (t,)),)),), args,
+                  'type filter: a parameter declared %s' % type_name(t))
+    return res
+
+
+def job_typed_two(tier, firsts):
+    """One overload foo(x: T1, y: T2): laziness and type checks per position."""
+    res = Result()
+    pargs = pair_arguments(tier)
+    args = list(enumerate(itertools.product(pargs, repeat=2)))
+    types = two_types(tier)
+    for i in firsts:
+        for j, t2 in enumerate(types):
+            run_typed(res, ('typed-two', i, j), ((False, (('t1', (types[i], t2)),)),), args,
+                      'type filter: parameters declared %s, %s' % (type_name(types[i]), type_name(t2)))
+    return res
+
+
+def job_typed_pairs(tier, firsts):
+    """Two overloads foo(x: T1), foo(x: T2) in one layer / child and parent / exclusive child: which one wins, or ambiguous."""
+    res = Result()
+    args = [(ai, (a,)) for ai, a in enumerate(arguments(tier))]
+    types = pair_types(tier)
+    for name in sorted(TYPED_LAYERINGS):
+        if name == 'grandchild' and tier == 'quick':
+            continue
+        for i in firsts:
+            for j in range(i if name == 'same' else 0, len(types)):
+                layers = TYPED_LAYERINGS[name](('t1', (types[i],)), ('t2', (types[j],)))
+                run_typed(res, ('typed-pair', name, i, j), layers, args,
+                          'type filter: %s next to %s (%s)' % (type_name(types[i]), type_name(types[j]),
+                                                              'same layer' if name == 'same' else 'nearer / farther layer'))
+    return res
+
+
 def strides(n, k):
     """k interleaved index lists over range(n): similar cost per job although low indices pair with more partners."""
     return [list(range(n))[i::k] for i in range(min(k, n))]
@@ -790,6 +1116,13 @@ def jobs(tier, seed):
             out.append(('kw2-%s-%02d' % (group, n), 'job_kw2', (tier, group, idx)))
     parts = 4 if quick else 16
     out += [('rejected-%02d' % k, 'job_rejected', (tier, k, parts)) for k in range(parts)]
+    parts = 4 if quick else 32
+    out += [('construct-%02d' % k, 'job_construct', (tier, k, parts)) for k in range(parts)]
+    out += [('typecheck', 'job_typecheck', (tier,)), ('typed-single', 'job_typed_single', (tier,))]
+    for n, idx in enumerate(strides(len(two_types(tier)), 1 if quick else 14)):
+        out.append(('typed-two-%02d' % n, 'job_typed_two', (tier, idx)))
+    for n, idx in enumerate(strides(len(pair_types(tier)), 2 if quick else 14)):
+        out.append(('typed-pairs-%02d' % n, 'job_typed_pairs', (tier, idx)))
     return out
 
 
@@ -799,7 +1132,19 @@ def _tuples(v):
     return v
 
 
+def replay_typed(case):
+    if case['typed'][0] == 'selfcheck':
+        found = sorted(f.detail for f in job_typecheck('thorough').failures.values())
+        return {'observed': repr(found), 'expected': '[]', 'ok': not found, 'text': case['text']}
+    layers, args = _tuples(case['layers']), _tuples(case['args'])
+    exp = typed_expected(layers, args)
+    obs = R.typed_call(R.build_typed(layers, typed_base()), [a[0].format(k=i) for i, a in enumerate(args)])
+    return {'observed': repr(obs), 'expected': repr(exp), 'ok': obs == exp, 'text': case['text']}
+
+
 def replay(case):
+    if case.get('typed'):
+        return replay_typed(case)
     layers = _tuples(case['layers'])
     call = _tuples(case['call'])
     exp = expected(layers, call)
@@ -812,6 +1157,12 @@ def replay(case):
         ctx = build_multi(members, far, tuple(order), comp[6])
     elif comp and comp[0] == 'linked':
         ctx = build_linked(layers)
+    elif comp and comp[0] == 'construct':
+        try:
+            ctx = R.build_constructed(_tuples(case['built']), R.CLASSES5, base())
+        except R.exceptions.InvalidMethodException as e:
+            return {'observed': 'registration rejected: InvalidMethodException %s' % e, 'expected': 'registration accepted',
+                    'ok': False, 'text': None}
     elif comp and comp[0] == 'rejected':
         history = _tuples(case['history'])
         told, rejected = M.registered(history)
